@@ -94,13 +94,31 @@ impl TextDocument {
         Ok(())
     }
 
+    /// Converts an LSP [Position] to a byte index into the content.
+    ///
+    /// `position.character` counts UTF-16 code units from the start of the line,
+    /// as no other position encoding is negotiated with the client.
     fn position_to_index(&self, position: Position) -> usize {
-        let line_offset = self
+        let line = position.line as usize;
+        let character = position.character as usize;
+        let Some(&line_start) = self.line_offsets.get(line) else {
+            // Past the last line, so not an index into the content.
+            return usize::MAX;
+        };
+        let line_end = self
             .line_offsets
-            .get(position.line as usize)
+            .get(line + 1)
             .copied()
             .unwrap_or(self.content.len());
-        line_offset + position.character as usize
+        let mut utf16_units = 0;
+        for (i, c) in self.content[line_start..line_end].char_indices() {
+            utf16_units += c.len_utf16();
+            if utf16_units > character {
+                return line_start + i;
+            }
+        }
+        // A character offset past the end of the line refers to the end of the line.
+        line_end
     }
 
     fn calculate_line_offsets(text: &str) -> Vec<usize> {
